@@ -35,7 +35,7 @@ def run_one(mu, slot, base="/tmp"):
         open(fp, "w").write(s.replace(mu["find"], mu["repl"], 1))
         env = dict(os.environ)
         env["VERIF_REPO"] = repo
-        env["VERIF_CACHE"] = os.path.join(base, "vstcache_%d" % slot)
+        env["VERIF_CACHE"] = os.path.join(base, "vstcache_%d_%d" % (os.getpid(), slot))
         env["VERIF_EVIDENCE_DIR"] = os.path.join(work, "evidence")
         env.pop("VERIF_TIER", None)
         q = subprocess.run([os.path.join(VERIF, "check"), mu["prop"], "--tier", "quick"], env=env, stdout=subprocess.PIPE, stderr=subprocess.PIPE, cwd=VERIF)
@@ -74,7 +74,7 @@ def run_benign(bn, slot, base="/tmp"):
             open(fp, "w").write(s.replace(a, b, 1))
         env = dict(os.environ)
         env["VERIF_REPO"] = repo
-        env["VERIF_CACHE"] = os.path.join(base, "vstcache_%d" % slot)
+        env["VERIF_CACHE"] = os.path.join(base, "vstcache_%d_%d" % (os.getpid(), slot))
         env["VERIF_EVIDENCE_DIR"] = os.path.join(work, "evidence")
         env.pop("VERIF_TIER", None)
         alarms = {}
@@ -116,7 +116,7 @@ def run(props=None, jobs=4, ids=None):
             results[bid] = res
     M = M + [dict(id=b["id"], prop="-", rule="(benign)") for b in Bn]
     for s in range(jobs):
-        shutil.rmtree("/tmp/vstcache_%d" % s, ignore_errors=True)
+        shutil.rmtree("/tmp/vstcache_%d_%d" % (os.getpid(), s), ignore_errors=True)
     return M, results
 
 
@@ -126,7 +126,7 @@ def for_property(pid):
     Informational only: on a tree that was itself modified the patterns may be stale."""
     M = [m for m in load_mutations() if m["prop"] == pid]
     Bn = [dict(b, props=[pid]) for b in load_benign() if b.get("props") is None or pid in b["props"]]
-    jobs = int(os.environ.get("VERIF_JOBS", "6"))
+    jobs = int(os.environ.get("VERIF_JOBS", "3"))
     q = queue.Queue()
     for s_ in range(jobs):
         q.put(s_)
@@ -149,7 +149,7 @@ def for_property(pid):
         fm = list(ex.map(wm, M))
         fb = list(ex.map(wb, Bn))
     for s_ in range(jobs):
-        shutil.rmtree("/tmp/vstcache_%d" % s_, ignore_errors=True)
+        shutil.rmtree("/tmp/vstcache_%d_%d" % (os.getpid(), s_), ignore_errors=True)
     out = {"mutations": [], "benign_edits": []}
     for m, (mid, r) in zip(M, fm):
         out["mutations"].append({"id": mid, "rule": m["rule"], "file": m["file"], "status": r["status"], "reported_by": r.get("rules")})
